@@ -1,12 +1,170 @@
-"""Kani harness runner (filled in below)."""
+"""Kani harness runner.
+
+Harnesses live in /verif/kani (crate `vx-kani`, depends on rateslib = { path = "/repo" }).  Tier K: loop-free (or with
+unwinding assertions) over a stated finite domain -> complete over that domain.  Tier Kb: bounded stand-in (array sizes).
+Results of SUCCESSFUL runs are cached under .cache/kani_results.json keyed by the hash of everything the verdict depends
+on (harness source, /repo/Cargo.lock, the listed /repo source files): a change to any of them re-runs the harness.
+"""
+import hashlib
+import json
 import os
+import re
+import shutil
+import subprocess
+import time
 
 ROOT = os.path.dirname(os.path.dirname(os.path.abspath(__file__)))
+REPO = os.environ.get("VERIF_REPO", "/repo")
+KDIR = os.path.join(ROOT, "kani")
+CACHE = os.path.join(ROOT, ".cache", "kani_results.json")
+
+HARNESSES = {
+    "chrono_view_is_days_from_civil": {
+        "src": "chrono_facts.rs", "tier": "K", "timeout": 900, "repo_files": [],
+        "bound": "every date 1970-01-01 .. 2200-12-31 (symbolic y/m/d, loop-free)",
+        "what": "shim/chrono.rs [K]: a NaiveDateTime built from (y,m,d,0,0,0) has timestamp 86400*days_from_civil, year/month/day/weekday accessors agree with the civil-date model",
+    },
+    "chrono_from_ymd_validity": {
+        "src": "chrono_facts.rs", "tier": "K", "timeout": 600, "repo_files": [],
+        "bound": "every (y in 1970..=2200, m in 0..=13, d in 0..=32)",
+        "what": "shim/chrono.rs [K]: NaiveDate::from_ymd_opt is Some exactly for valid civil dates (cal_valid)",
+    },
+    "chrono_add_days": {
+        "src": "chrono_facts.rs", "tier": "K", "timeout": 1500, "repo_files": [],
+        "bound": "every date 1970..2200, every step 0..=31 days",
+        "what": "shim/chrono.rs [K]: `t + Days::new(k)` has day number + k",
+    },
+    "chrono_sub_days": {
+        "src": "chrono_facts.rs", "tier": "K", "timeout": 1500, "repo_files": [],
+        "bound": "every date 1970..2200, every step 0..=31 days",
+        "what": "shim/chrono.rs [K]: `t - Days::new(k)` has day number - k",
+    },
+    "row_swap_swaps_exactly_two_rows": {
+        "src": "linalg_swaps.rs", "tier": "Kb", "timeout": 1200, "repo_files": ["rust/dual/linalg/linalg_dual.rs", "rust/dual/linalg/mod.rs"],
+        "bound": "3x3 arrays of arbitrary i32, every j < k < 3",
+        "what": "assumed contract `swapped` of row_swap (contracts/linalg*.vx) on the real code",
+    },
+    "el_swap_swaps_exactly_two_elements": {
+        "src": "linalg_swaps.rs", "tier": "Kb", "timeout": 1200, "repo_files": ["rust/dual/linalg/linalg_dual.rs", "rust/dual/linalg/mod.rs"],
+        "bound": "length-4 arrays of arbitrary i32, every j < k < 4",
+        "what": "assumed contract `swapped1` of el_swap (contracts/linalg*.vx) on the real code",
+    },
+    "argabsmax_is_an_index_of_largest_abs": {
+        "src": "linalg_swaps.rs", "tier": "Kb", "timeout": 1200, "repo_files": ["rust/dual/linalg/linalg_dual.rs", "rust/dual/linalg/mod.rs"],
+        "bound": "arrays of 1..4 arbitrary i16 (not MIN)",
+        "what": "assumed contract of argabsmax (an index of an element of largest absolute value) on the real code",
+    },
+}
+
+
+def _sha(*paths):
+    h = hashlib.sha256()
+    for p in paths:
+        try:
+            with open(p, "rb") as f:
+                h.update(f.read())
+        except OSError:
+            h.update(b"<missing>")
+        h.update(b"\0")
+    return h.hexdigest()[:24]
+
+
+def _key(name):
+    spec = HARNESSES[name]
+    paths = [os.path.join(KDIR, "src", spec["src"]), os.path.join(KDIR, "src", "lib.rs"), os.path.join(KDIR, "Cargo.toml"), os.path.join(REPO, "Cargo.lock")]
+    paths += [os.path.join(REPO, f) for f in spec["repo_files"]]
+    return name + ":" + _sha(*paths)
+
+
+def _load_cache():
+    try:
+        return json.load(open(CACHE))
+    except Exception:  # noqa
+        return {}
+
+
+def _save_cache(c):
+    os.makedirs(os.path.dirname(CACHE), exist_ok=True)
+    with open(CACHE, "w") as f:
+        json.dump(c, f, indent=1)
+
+
+def _env():
+    e = dict(os.environ)
+    e["CARGO_NET_OFFLINE"] = "true"
+    return e
 
 
 def setup():
+    """Copies /repo/Cargo.lock (pins the dependency versions the real crate uses) and pre-builds nothing: the first
+    harness run compiles rateslib under Kani (~1 min)."""
+    if not os.path.isdir(KDIR):
+        return 0
+    try:
+        shutil.copyfile(os.path.join(REPO, "Cargo.lock"), os.path.join(KDIR, "Cargo.lock"))
+    except OSError:
+        return 1
     return 0
 
 
-def run_harnesses(pid, harnesses, tier):
-    return {"harnesses": [], "cmds": [], "trusted": [], "guards": {}}
+def _run_one(name, extra=None):
+    spec = HARNESSES[name]
+    cmd = ["cargo", "kani", "--harness", name] + (extra or [])
+    t0 = time.time()
+    try:
+        p = subprocess.run(cmd, cwd=KDIR, env=_env(), capture_output=True, text=True, timeout=spec["timeout"])
+        out = p.stdout + "\n" + p.stderr
+        rc = p.returncode
+    except subprocess.TimeoutExpired as e:
+        subprocess.run(["pkill", "-x", "cbmc"])
+        return {"status": "undecided", "reason": f"timeout after {spec['timeout']} s", "seconds": time.time() - t0, "cmd": " ".join(cmd), "out": str(e)[-400:]}
+    secs = time.time() - t0
+    m = re.search(r"Verification Time: ([0-9.]+)s", out)
+    vt = float(m.group(1)) if m else secs
+    if "VERIFICATION:- SUCCESSFUL" in out and re.search(r"\*\* 0 of \d+ failed", out):
+        nchecks = int(re.search(r"\*\* 0 of (\d+) failed", out).group(1))
+        if nchecks == 0:
+            return {"status": "undecided", "reason": "harness generated zero checks (vacuous)", "seconds": vt, "cmd": " ".join(cmd), "out": out[-600:]}
+        return {"status": "discharged", "seconds": vt, "checks": nchecks, "cmd": " ".join(cmd), "out": out[-300:]}
+    if "VERIFICATION:- FAILED" in out:
+        failed = re.findall(r"Failed Checks: ([^\n]*)", out)
+        # unwinding / unsupported-construct failures are tool limits, not property violations
+        if failed and all(("unwinding assertion" in f or "not currently supported" in f or "unsupported" in f.lower()) for f in failed):
+            return {"status": "undecided", "reason": "tool limit: " + "; ".join(failed[:3]), "seconds": vt, "cmd": " ".join(cmd), "out": out[-800:]}
+        return {"status": "failed", "failed_checks": "; ".join(failed[:5]) or "see output", "seconds": vt, "cmd": " ".join(cmd), "out": out[-1500:]}
+    return {"status": "undecided", "reason": f"kani gave no verdict (rc={rc})", "seconds": secs, "cmd": " ".join(cmd), "out": out[-1200:]}
+
+
+def run_harnesses(pid, names, tier):
+    res = {"harnesses": [], "cmds": [], "trusted": [], "guards": {}}
+    if setup() != 0:
+        res["harnesses"].append({"name": "setup", "tier": "K", "status": "undecided", "reason": "cannot copy /repo/Cargo.lock"})
+        return res
+    if isinstance(names, dict):
+        names = names.get(tier, names.get("quick", []))
+    cache = _load_cache()
+    for name in names:
+        spec = HARNESSES[name]
+        key = _key(name)
+        h = {"name": name, "tier": spec["tier"], "bound": spec["bound"], "what": spec["what"], "where": f"kani/src/{spec['src']}"}
+        if key in cache and cache[key].get("status") == "discharged":
+            h.update({"status": "discharged", "seconds": cache[key].get("seconds", 0), "cached": True, "checks": cache[key].get("checks")})
+            res["cmds"].append(cache[key].get("cmd", "") + "   # cached verdict (inputs unchanged)")
+        else:
+            r = _run_one(name)
+            h.update({k: v for k, v in r.items() if k not in ("out", "cmd")})
+            h["output_tail"] = r.get("out", "")
+            res["cmds"].append(r.get("cmd", ""))
+            if r["status"] == "discharged":
+                cache[key] = {"status": "discharged", "seconds": r["seconds"], "checks": r.get("checks"), "cmd": r.get("cmd"), "at": time.strftime("%Y-%m-%dT%H:%M:%S")}
+                _save_cache(cache)
+            elif r["status"] == "failed":
+                # second run: ask Kani for concrete values of the symbolic inputs
+                r2 = _run_one(name, ["-Z", "concrete-playback", "--concrete-playback=print"])
+                m = re.search(r"(#\[test\][\s\S]*?\n\}\n)", r2.get("out", "") if r2.get("out") else "")
+                full = r2.get("out", "")
+                h["counterexample"] = {"harness": name, "concrete_playback": (m.group(1) if m else full[-1500:]), "domain": spec["bound"]}
+        res["guards"][f"kani {name}: at least one check generated"] = bool(h.get("checks", 1))
+        res["harnesses"].append(h)
+    res["trusted"].append("Kani 0.68 / CBMC 6.11 (bit-precise model of the compiled MIR; `kani::any()` ranges as stated per harness)")
+    return res
